@@ -428,6 +428,22 @@ RetSearch(r) ==
     /\ op' = NoOp
     /\ UNCHANGED <<life, pool, owed, heap, cfg>>
 
+\* the predicate of find / rfind panicked: the element it was looking at is either dropped while unwinding (Unwound)
+\* or still in the iterator, where it was - an implementation may hand out a reference into the array and advance
+\* only afterwards; either way it exists exactly once
+UnwoundSearchKeep(u) ==
+    /\ ~Idle /\ op.name \in SearchByRef /\ op.phase = "unwinding" /\ Strict
+    /\ OwedIn(OpScope) = SeqRange(op.cur) /\ AllLive(op.cur)
+    /\ Len(u.obs) = 1 /\ u.obs[1].h = op.recv[1]
+    /\ LET h == op.recv[1]
+           w == IF op.name \in BackSearch THEN pool[h].items \o op.cur ELSE op.cur \o pool[h].items
+       IN /\ ItemsEq(u.obs[1].items, w)
+          /\ u.obs[1].len = Len(w) /\ u.obs[1].lo = Len(w) /\ u.obs[1].hi = Len(w)
+          /\ pool' = [pool EXCEPT ![h].items = w]
+    /\ owed' = Restrict(owed, DOMAIN owed \ SeqRange(op.cur))
+    /\ op' = NoOp
+    /\ UNCHANGED <<life, loose, heap, cfg>>
+
 RetCb(r) ==
     /\ ~Idle /\ IsCbOp(op.name) /\ op.name \notin CloneFromOps \cup SearchOps /\ op.phase = "idle"
     /\ op.k = op.n
